@@ -208,7 +208,7 @@ TDone ==
                             !.codes = IF ok THEN @ ELSE @ \cup {E.code},
                             !.nfail = IF ok THEN @ ELSE @ + 1]
         /\ L' = IF ok THEN [L EXCEPT ![i] = [has |-> TRUE, vstr |-> s.vstr, start |-> StartTick(i), end |-> E.t,
-                                             rec |-> ToS(s.hdrs), recok |-> TRUE, unsure |-> FALSE]]
+                                             rec |-> ToS(HdrsOf(s, iv.T0)), recok |-> TRUE, unsure |-> FALSE]]
                 ELSE L
         /\ F' = IF ok THEN F \ {i} ELSE F \cup {i}
         /\ FT' = IF ok THEN FT \ {i} ELSE IF Len(E.wrote) > 0 THEN FT \cup {i} ELSE FT \ {i}
